@@ -95,3 +95,73 @@ class Grammar:
         """the single string literal a rule consists of (operators), else None"""
         e = self.rules[name]["expr"]
         return e["v"] if e["k"] == "str" else None
+
+
+    # ---- implicit whitespace: where can leading blanks be skipped?
+    def nullable(self, e, seen=frozenset()):
+        k = e["k"]
+        if k in ("str", "insens"):
+            return e["v"] == ""
+        if k in ("range",):
+            return False
+        if k in ("pospred", "negpred", "opt", "rep", "repmax", "skip"):
+            return True
+        if k in ("repmin", "repmm", "repn"):
+            return int(e.get("n", e.get("a", 1))) == 0 or self.nullable(e["e"], seen)
+        if k in ("rep1", "push"):
+            return self.nullable(e["e"], seen)
+        if k == "seq":
+            return self.nullable(e["a"], seen) and self.nullable(e["b"], seen)
+        if k == "choice":
+            return self.nullable(e["a"], seen) or self.nullable(e["b"], seen)
+        if k == "ident":
+            v = e["v"]
+            if v in ("SOI", "EOI", "PEEK_ALL", "POP_ALL", "DROP"):
+                return True
+            if v not in self.rules or v in seen:
+                return False
+            return self.nullable(self.rules[v]["expr"], seen | {v})
+        return False
+
+    def leading_skip(self, e, seen=frozenset()):
+        """in a non-atomic context: is there an implicit-WHITESPACE point before the first consuming terminal of e?
+        (pest rewrites `a ~ b` to `a ~ skip ~ b`, so a nullable first element of a sequence buys one)"""
+        k = e["k"]
+        if k == "seq":
+            if self.leading_skip(e["a"], seen):
+                return True
+            return self.nullable(e["a"], seen) and True
+        if k == "choice":
+            return self.leading_skip(e["a"], seen) and self.leading_skip(e["b"], seen)
+        if k in ("opt", "rep", "rep1", "repmin", "repmax", "repmm", "repn", "push"):
+            return self.leading_skip(e["e"], seen)
+        if k == "ident":
+            v = e["v"]
+            if v not in self.rules or v in seen:
+                return False
+            if self.rules[v]["ty"] in ("atomic", "compound_atomic"):
+                return False
+            return self.leading_skip(self.rules[v]["expr"], seen | {v})
+        return False
+
+    def first_alternatives(self, name):
+        """the alternatives that can start at the very first position of rule `name` without an implicit skip
+        before them: [] when the rule begins with a nullable element followed by `~` (then everything is
+        preceded by a skip).  Returns [(label, expr)]"""
+        e = self.rules[name]["expr"]
+        while e["k"] == "seq":
+            if self.nullable(e["a"]) and e["a"]["k"] not in ("rep", "rep1", "opt", "repmin", "repmm", "repmax"):
+                return []           # e.g. SOI ~ ... : a skip follows
+            e = e["a"]
+        while e["k"] in ("rep", "rep1", "opt", "repmin", "repmax", "repmm", "repn", "push"):
+            e = e["e"]
+        alts = []
+
+        def flat(x):
+            if x["k"] == "choice":
+                flat(x["a"])
+                flat(x["b"])
+            else:
+                alts.append(x)
+        flat(e)
+        return [((a["v"] if a["k"] == "ident" else a["k"]), a) for a in alts]
